@@ -249,15 +249,49 @@ fn gen_multipart_input(rng: &mut Rng) -> (Vec<u8>, &'static str) {
 
 static CALL_STARTED_MS: AtomicU64 = AtomicU64::new(0);
 fn now_ms() -> u64 { std::time::SystemTime::now().duration_since(std::time::UNIX_EPOCH).unwrap().as_millis() as u64 }
+fn process_cpu_ms() -> u64 {
+    let mut ts = libc::timespec { tv_sec: 0, tv_nsec: 0 };
+    unsafe { libc::clock_gettime(libc::CLOCK_PROCESS_CPUTIME_ID, &mut ts) };
+    ts.tv_sec as u64 * 1000 + ts.tv_nsec as u64 / 1_000_000
+}
+/// The limit is CPU time the process burnt while one call was running (a looping decoder burns CPU; a worker that is merely not scheduled
+/// on a loaded machine does not), with a very generous wall-clock backstop (exit 98, reported as inconclusive by the driver).
 fn start_watchdog(limit_ms: u64) {
-    std::thread::spawn(move || loop {
-        std::thread::sleep(std::time::Duration::from_millis(250));
-        let s = CALL_STARTED_MS.load(Ordering::SeqCst);
-        if s != 0 && now_ms().saturating_sub(s) > limit_ms {
-            eprintln!("vh c08 watchdog: a decoder call did not return within {limit_ms} ms");
-            unsafe { libc::_exit(97) }
+    std::thread::spawn(move || {
+        let mut seen_start = 0u64;
+        let mut cpu_at_start = 0u64;
+        loop {
+            std::thread::sleep(std::time::Duration::from_millis(250));
+            let s = CALL_STARTED_MS.load(Ordering::SeqCst);
+            if s == 0 {
+                seen_start = 0;
+                continue;
+            }
+            if s != seen_start {
+                seen_start = s;
+                cpu_at_start = process_cpu_ms();
+                continue;
+            }
+            if process_cpu_ms().saturating_sub(cpu_at_start) > limit_ms {
+                eprintln!("vh c08 watchdog: a decoder call burnt more than {limit_ms} ms of CPU without returning");
+                unsafe { libc::_exit(97) }
+            }
+            if now_ms().saturating_sub(s) > 30 * limit_ms {
+                eprintln!("vh c08 watchdog: wall-clock backstop");
+                unsafe { libc::_exit(98) }
+            }
         }
     });
+}
+
+/// CPU time consumed by the calling thread (not wall time: a loaded machine must not change a verdict)
+fn thread_cpu_s() -> f64 {
+    if cfg!(miri) {
+        return 0.0;
+    }
+    let mut ts = libc::timespec { tv_sec: 0, tv_nsec: 0 };
+    unsafe { libc::clock_gettime(libc::CLOCK_THREAD_CPUTIME_ID, &mut ts) };
+    ts.tv_sec as f64 + ts.tv_nsec as f64 * 1e-9
 }
 
 pub fn run(args: &Args, rep: &mut Report) {
@@ -298,9 +332,9 @@ pub fn run(args: &Args, rep: &mut Report) {
                 }
                 rep.eval();
                 CALL_STARTED_MS.store(now_ms(), Ordering::SeqCst);
-                let t0 = std::time::Instant::now();
+                let t0 = thread_cpu_s();
                 let r = catch(|| call(&input));
-                let dt = t0.elapsed();
+                let dt = thread_cpu_s() - t0;
                 CALL_STARTED_MS.store(0, Ordering::SeqCst);
                 let oc = match &r { Ok(Out::Ok) => "ok", Ok(Out::Err) => "err", Ok(Out::Problem(_)) => "problem", Err(_) => "panic" };
                 rep.count(&format!("{dname}:{oc}"));
@@ -311,8 +345,14 @@ pub fn run(args: &Args, rep: &mut Report) {
                     Ok(Out::Problem(ps)) => rep.violation(&format!("C08/bad-value:{dname}:{}", if ps[0].contains("UTF-8") { "non-utf8-string" } else { "slice-outside-input" }), &format!("{dname} into {tname} on {}: {}", crate::rng::show(&input), ps[0]), cj()),
                     _ => {}
                 }
-                if dt.as_secs_f64() > 2.0 && input.len() <= 4096 {
-                    rep.violation(&format!("C08/slow:{dname}"), &format!("{dname} into {tname} took {:.1}s on {} bytes", dt.as_secs_f64(), input.len()), cj());
+                if dt > 2.0 && input.len() <= 4096 {
+                    // CPU time of this thread, not wall time; and it only counts if three more measurements of the same call agree
+                    rep.count("slow_calls_remeasured");
+                    let again: Vec<f64> = (0..3).map(|_| { let t = thread_cpu_s(); let _ = catch(|| call(&input)); thread_cpu_s() - t }).collect();
+                    let least = again.iter().cloned().fold(f64::MAX, f64::min);
+                    if least > 2.0 {
+                        rep.violation(&format!("C08/slow:{dname}"), &format!("{dname} into {tname} took {dt:.1}s of CPU time on {} bytes (re-measured: {again:.1?})", input.len()), cj());
+                    }
                 }
                 if rep.want_sample() && oc == "err" && iclass == "mutant" {
                     rep.sample(json!({"decoder": dname, "target": tname, "input": crate::rng::show(&input), "outcome": oc}));
